@@ -37,12 +37,20 @@ def _data(d):
 def mbox_bytes(n, tag="m"):
     out = []
     for i in range(1, n + 1):
+        if i == 2:
+            # an 8-bit MIME message: its str and bytes serialisations differ in length
+            out.append(
+                "From user2@example.org Sat Sep  8 02:00:00 2001\n"
+                "From: user2@example.org\nTo: list@example.org\nSubject: %s message 2\n"
+                "MIME-Version: 1.0\nContent-Type: text/plain; charset=utf-8\n"
+                "Content-Transfer-Encoding: 8bit\n\nGr\u00fc\u00dfe aus K\u00f6ln \u2013 body of %s message 2.\n\n" % (tag, tag))
+            continue
         out.append(
             "From user%d@example.org Sat Sep  8 0%d:00:00 2001\n"
             "From: user%d@example.org\nTo: list@example.org\n"
             "Subject: %s message %d\nMessage-ID: <%s%d@example.org>\n\n"
             "Body of %s message %d.\nSecond line.\n\n" % (i, i % 10, i, tag, i, tag, i, tag, i))
-    return "".join(out).encode()
+    return "".join(out).encode("utf-8")
 
 
 def build(root, spec, base=None):
@@ -80,13 +88,16 @@ def build(root, spec, base=None):
         elif k == "zip":
             buf = io.BytesIO()
             with zipfile.ZipFile(buf, "w") as z:
-                for name, text in e["members"]:
+                for m in e["members"]:
+                    name, text = m[0], m[1]
+                    mode = m[2] if len(m) > 2 else 0o644
                     zi = zipfile.ZipInfo(name, date_time=(2001, 9, 1, 12, 0, 0))
+                    zi.create_system = 3   # Unix: external_attr carries the permission bits
                     if name.endswith("/"):
                         zi.external_attr = (0o40755 << 16) | 0x10
                         z.writestr(zi, b"")
                     else:
-                        zi.external_attr = 0o100644 << 16
+                        zi.external_attr = (0o100000 | mode) << 16
                         z.writestr(zi, _data(text))
             with simfs.real_open(pb, "wb") as f:
                 f.write(buf.getvalue())
@@ -101,8 +112,13 @@ def build(root, spec, base=None):
                 fn = os.path.join(pb, sub, b"100000000%d.M1P1.sim:2,S" % i if sub == b"cur"
                                   else b"100000000%d.M1P1.sim" % i)
                 with simfs.real_open(fn, "wb") as f:
-                    f.write(("From: u%d@example.org\nSubject: maildir message %d\n\nHello %d\n"
-                             % (i, i, i)).encode())
+                    if i == 2:
+                        f.write(("From: u2@example.org\nSubject: maildir message 2\nMIME-Version: 1.0\n"
+                                 "Content-Type: text/plain; charset=utf-8\nContent-Transfer-Encoding: 8bit\n\n"
+                                 "Gr\u00fc\u00dfe \u2013 hello 2\n").encode("utf-8"))
+                    else:
+                        f.write(("From: u%d@example.org\nSubject: maildir message %d\n\nHello %d\n"
+                                 % (i, i, i)).encode())
         else:
             raise ValueError(k)
         stamps.append((pb, base - age))
